@@ -29,7 +29,7 @@ LEVEL_NOTE = (
     ">= 1/4 by construction. Bounds: orders <= 2 (quick) / 3 (thorough), words of <= 3 operators, <= 3 modes, <= ~500 states."
 )
 TECHNIQUE = "property-based testing (Hypothesis): operator-valued results vs matrix block diagonalisation on a truncated Fock space"
-BUDGET = {"quick": 480, "thorough": 8000}
+BUDGET = {"quick": 480, "thorough": 4000}
 SHRINK_SECONDS = {"quick": 40, "thorough": 300}
 RULE = (
     "case = (modes, rational frequencies + optional interaction, 1-3 perturbation words with rational coefficients, "
@@ -66,7 +66,9 @@ GN = {"blocks_cn": Fraction(2, 3)}
 @st.composite
 def _case(draw, tier):
     modes = draw(st.sampled_from(MODE_SETS))
-    K = 2 if tier == "quick" else draw(st.sampled_from([2, 2, 3]))
+    # third order only for one or two modes in the thorough tier (the symbolic third order of three-mode problems takes
+    # the library many minutes per case)
+    K = 2 if tier == "quick" or len(modes) > 2 else draw(st.sampled_from([2, 2, 3]))
     n_words = draw(st.integers(1, 3))
     words = []
     for _ in range(n_words):
@@ -82,7 +84,7 @@ def _case(draw, tier):
     return {
         "modes": modes, "K": K, "words": words, "freq_order": list(perm),
         "interaction": draw(st.sampled_from([None, None, "kerr", "cross"])),
-        "form": draw(st.sampled_from(["scalar", "scalar", "matrix1", "blocks", "matrix2mask", "blocks3", "blocks_fd", "blocks_cn"])),
+        "form": draw(st.sampled_from(["scalar", "scalar", "matrix1", "blocks", "matrix2mask", "blocks3", "blocks_fd", "blocks_cn"] if K == 2 else ["scalar", "scalar", "matrix1", "blocks", "blocks_cn"])),
         # operator-valued elimination mask: eliminate only the shifts of these perturbation words (and their adjoints)
         "mask_words": sorted(draw(st.sets(st.integers(0, n_words - 1), min_size=1))) if draw(st.integers(0, 2)) == 0 else None,
         # symbolic-power mask  a**(k+p) + Dagger(a)**(k+p): eliminate every pure shift of the first boson/ladder mode by >= p
@@ -242,6 +244,11 @@ def check_case(case, enforce_all=False):
         out.labels.append("skipped:space-too-large")
         return out
     form = case["form"]
+    if K >= 3 and space.D * (1 if form in ("scalar", "matrix1") else 3 if form == "blocks3" else 2) > 420:
+        # third order runs the reference in extended precision, where numpy has no BLAS: a 1400 x 1400 clongdouble
+        # reference takes minutes per case.  Bounded by size (never by time): such cases are not judged.
+        out.labels.append("skipped:too-large-for-the-extended-precision-reference")
+        return out
     kinds_sorted = b["kinds"]
     H0, H1 = b["H0"], b["H1"]
     # ------------------------------------------------------------- library
